@@ -130,7 +130,7 @@ func (w *World) GenesisValSet() *types.ValidatorSet {
 // SignVote signs (and caches) a vote with the key of validator `key` as an adversary holding that key would.
 // The vote may name any address / index: only the canonical sign bytes are covered by the signature.
 func (w *World) SignVote(key int, chain string, v *types.Vote) []byte {
-	ck := fmt.Sprint(w.Addr(key).Hex(), chain, v.Type, v.Height, v.Round, v.BlockID.Key(), v.Timestamp.UnixNano())
+	ck := fmt.Sprint(w.Addr(key).Hex(), chain, v.Type, v.Height, v.Round, v.BlockID.Key(), v.BlockID.PartsHeader.Total, v.Timestamp.UnixNano()) // (Key() leaves the total out)
 	w.sc.mu.Lock()
 	sig, ok := w.sc.m[ck]
 	w.sc.mu.Unlock()
